@@ -14,7 +14,8 @@
 (*  call  = [npos : Nat, kws : Seq(STRING)]                  the flattened call (positional  *)
 (*          values are numbered 1..npos from the left; kws may repeat a name only via a **map)   *)
 (*  Reserved : the intended deviation of pyscript - unexpected keywords with these names are *)
-(*          dropped when the callee has no **kwargs.  Reserved = {} is Python.               *)
+(*          dropped when the callee has no **kwargs and does not declare them (parameters   *)
+(*          may themselves be named like reserved keywords).  Reserved = {} is Python.      *)
 (*  flags : named deviations of the pinned code (known findings); {} is the statement.       *)
 (*     "posonly-kw"  a keyword naming a positional-only parameter raises TypeError even      *)
 (*                   though **kwargs should absorb it                                       *)
@@ -49,7 +50,9 @@ Bind(sig, call, Reserved, flags) ==
       bound    == byPos \cup byKw
       needP    == { P[i] : i \in 1..(n - sig.ndef) }          \* positional parameters without default
       needK    == { sig.ko[i].name : i \in { j \in 1..Len(sig.ko) : ~sig.ko[j].hasdef } }
-      dropped  == IF sig.kw THEN {} ELSE extra \cap Reserved  \* pyscript's intended deviation
+      \* pyscript's intended deviation: UNDECLARED reserved keywords are dropped (a keyword naming a
+      \* positional-only parameter is declared: it stays an error, as in Python)
+      dropped  == IF sig.kw THEN {} ELSE (extra \cap Reserved) \ Range(sig.po)
       err ==
         \/ Repeated(call.kws) /\ "dup-kw" \notin flags                 \* keyword given twice (through **)
         \/ call.npos > n /\ ~sig.va                                    \* too many positional arguments
@@ -77,6 +80,7 @@ NoExtraNames(sig, call, Reserved, r) ==
   r.k = "ok" => /\ r.kwmap \subseteq Range(call.kws) \ Named(sig)
                 /\ (~sig.kw => r.kwmap = {})
                 /\ r.dropped \subseteq Reserved /\ (sig.kw => r.dropped = {})
+                /\ r.dropped \cap Range(AllParams(sig)) = {}                       \* a declared name is never dropped
                 /\ Range(call.kws) = r.kwd \cup r.kwmap \cup r.dropped        \* every keyword accounted for, once
                 /\ r.kwd \cap r.kwmap = {} /\ r.kwd \cap r.dropped = {} /\ r.kwmap \cap r.dropped = {}
                 /\ (Len(r.va) > 0 => sig.va)
@@ -98,7 +102,7 @@ ValidAssignment(sig, call, Reserved, s) ==
   \* every keyword is consumed: by the parameter it names if that accepts keywords, else by **kw, else dropped
   /\ \A k \in Range(call.kws) :
        IF k \in named THEN \E i \in 1..Len(AP) : AP[i] = k /\ s[i] = "kw"
-       ELSE sig.kw \/ k \in Reserved
+       ELSE sig.kw \/ (k \in Reserved /\ k \notin Range(sig.po))
 \* number of valid assignments extending the partial assignment s (depth-first over the admissible sources)
 RECURSIVE CountValid(_, _, _, _, _)
 CountValid(sig, call, Reserved, opts, s) ==
